@@ -125,6 +125,8 @@ type pathState struct {
 	dom       map[*smt.Term]*[4]uint64 // over-approximate value set of each symbolic byte
 	dirty     bool
 	skipped   int
+	orderMode    int
+	sitePicked   bool
 	sched     *scheduler
 }
 
@@ -432,19 +434,57 @@ func (ps *pathState) note(k, v string) {
 	ps.notes[k] = v
 }
 
-// mapIter builds the iteration order of a map: insertion order by default, or
-// any permutation (one fork per position) when map-order exploration is on.
+// mapIter builds the iteration order of a map: insertion order by default. With
+// map-order exploration on, a path either (a) reverses every map, (b) rotates every
+// map, or (c) picks ONE iteration site and gives it an arbitrary permutation (all n!
+// for n <= 4, else reverse / rotate / swap of the first two) while all other sites
+// keep insertion order. Interactions between two deviating sites are outside the bound.
 func (ps *pathState) mapIter(m *omap) iter {
 	idx := m.liveIndices()
 	if ps.mapOrder && len(idx) > 1 {
-		rest := append([]int{}, idx...)
-		var order []int
-		for len(rest) > 0 {
-			c := ps.choose(len(rest))
-			order = append(order, rest[c])
-			rest = append(rest[:c], rest[c+1:]...)
+		if ps.orderMode == 0 {
+			ps.orderMode = 1 + ps.choose(3)
 		}
-		idx = order
+		reverse := func() {
+			rev := make([]int, len(idx))
+			for k := range idx {
+				rev[k] = idx[len(idx)-1-k]
+			}
+			idx = rev
+		}
+		rotate := func() {
+			h := (len(idx) + 1) / 2
+			idx = append(append([]int{}, idx[h:]...), idx[:h]...)
+		}
+		switch ps.orderMode {
+		case 2:
+			reverse()
+		case 3:
+			rotate()
+		default:
+			if !ps.sitePicked && ps.choose(2) == 0 {
+				ps.sitePicked = true
+				if len(idx) <= 4 {
+					rest := append([]int{}, idx...)
+					var order []int
+					for len(rest) > 0 {
+						c := ps.choose(len(rest))
+						order = append(order, rest[c])
+						rest = append(rest[:c], rest[c+1:]...)
+					}
+					idx = order
+				} else {
+					switch ps.choose(3) {
+					case 0:
+						reverse()
+					case 1:
+						rotate()
+					default:
+						idx = append([]int{idx[1], idx[0]}, idx[2:]...)
+					}
+				}
+			}
+		}
 	}
 	return &omapIter{m: m, order: idx}
 }
